@@ -60,9 +60,56 @@ type Path struct {
 	wfKnown  string
 	lets     map[string]SV
 	nforks   int
+	pendingExt string
+	anchors  []anchor
+	seq      int
+	freshSeq map[string]int
 	loopFrame *frameSet
 	loopBase  string
 	loopBody  map[*ssa.BasicBlock]bool
+}
+
+// anchor: a heap such that everything existing in it is still unchanged in the current heap
+type anchor struct {
+	H   string
+	seq int
+}
+
+// extStep records a heap transition old -> p.H. kind: "ghost" (cells, trace, allocation, empty-frame
+// call), "fresh:<id>" (write to storage identified by id), or "break" (write to pre-existing containers).
+func (x *Exec) extStep(p *Path, newH, kind string) {
+	p.seq++
+	keep := p.anchors[:0:0]
+	for _, a := range p.anchors {
+		ok := false
+		switch {
+		case kind == "ghost":
+			ok = true
+		case strings.HasPrefix(kind, "fresh:"):
+			if s, isFresh := p.freshSeq[kind[6:]]; isFresh && a.seq <= s {
+				ok = true
+			}
+		}
+		if ok {
+			p.assume(fmt.Sprintf("(ext %s %s)", a.H, newH))
+			keep = append(keep, a)
+		}
+	}
+	p.anchors = keep
+}
+
+func (x *Exec) addAnchorAt(p *Path, h string) {
+	p.anchors = append(p.anchors, anchor{h, p.seq})
+	if len(p.anchors) > 5 {
+		p.anchors = p.anchors[len(p.anchors)-5:]
+	}
+}
+
+func (x *Exec) addAnchor(p *Path) {
+	p.anchors = append(p.anchors, anchor{p.H, p.seq})
+	if len(p.anchors) > 5 {
+		p.anchors = p.anchors[len(p.anchors)-5:]
+	}
 }
 
 type loopInfo struct {
@@ -111,8 +158,17 @@ func (x *Exec) fresh(prefix string) string {
 }
 
 func (x *Exec) strConst(s string) string {
-	if s == "" {
+	switch s {
+	case "":
 		return "str_empty"
+	case "null":
+		return "str_null"
+	case ".0":
+		return "str_dot0"
+	case "%s:%s":
+		return "str_fmt_kv"
+	case ".":
+		return "str_dot"
 	}
 	if i, ok := x.strs[s]; ok {
 		return fmt.Sprintf("str_%d", i)
@@ -189,6 +245,11 @@ func (p *Path) clone() *Path {
 	for k, v := range p.lets {
 		q.lets[k] = v
 	}
+	q.anchors = append([]anchor(nil), p.anchors...)
+	q.freshSeq = map[string]int{}
+	for k, v := range p.freshSeq {
+		q.freshSeq[k] = v
+	}
 	return &q
 }
 
@@ -224,7 +285,16 @@ func (x *Exec) upd(p *Path, comp string, val string) {
 	h := x.newHeap(p)
 	p.assume(fmt.Sprintf("(= %s (mkHeap %s))", h, strings.Join(parts, " ")))
 	p.H = h
+	if ghostComp[comp] {
+		x.extStep(p, h, "ghost")
+	} else {
+		x.extStep(p, h, p.pendingExt)
+	}
+	p.pendingExt = ""
 }
+
+// components that hold no container state (cells, trace)
+var ghostComp = map[string]bool{"CInt": true, "CBool": true, "CVal": true, "CStr": true, "CF64": true, "TrLen": true, "TrA": true, "TrB": true}
 
 func (x *Exec) updMulti(p *Path, repl map[string]string) {
 	var parts []string
@@ -237,7 +307,19 @@ func (x *Exec) updMulti(p *Path, repl map[string]string) {
 	}
 	h := x.newHeap(p)
 	p.assume(fmt.Sprintf("(= %s (mkHeap %s))", h, strings.Join(parts, " ")))
+	allGhost := true
+	for c := range repl {
+		if !ghostComp[c] {
+			allGhost = false
+		}
+	}
 	p.H = h
+	if allGhost {
+		x.extStep(p, h, "ghost")
+	} else {
+		x.extStep(p, h, p.pendingExt)
+	}
+	p.pendingExt = ""
 }
 
 func (x *Exec) store1(p *Path, comp, idx, val string) {
@@ -253,8 +335,10 @@ func (x *Exec) alloc(p *Path, kind string, n int) string {
 	for i := 0; i < n; i++ {
 		kinds = fmt.Sprintf("(store %s (+ %s %d) %s)", kinds, id, i, kind)
 	}
+	p.pendingExt = "ghost" // allocation changes nothing that existed
 	x.updMulti(p, map[string]string{"Kind": kinds, "next": fmt.Sprintf("(+ %s %d)", id, n)})
 	p.freshT[id] = true
+	p.freshSeq[id] = p.seq
 	return id
 }
 
@@ -313,6 +397,9 @@ func (x *Exec) readCell(H string, l *Loc) SV {
 	}
 	if m, ok := l.Elem.Underlying().(*types.Map); ok {
 		return SV{K: KMap, T: fmt.Sprintf("(select (CInt %s) %s)", H, l.Cell), MapT: m}
+	}
+	if l.Kind == "builder" {
+		return SV{K: KTerm, T: fmt.Sprintf("(select (CStr %s) %s)", H, l.Cell), S: SStr}
 	}
 	c := cellComp(l.Elem)
 	if c == "" {
@@ -568,9 +655,10 @@ func (x *Exec) verifyFunc(fn *ssa.Function, ct *Contract) {
 		li.writes = x.loopWrites(li)
 	}
 	x.cur = fc
-	p := &Path{variants: map[int]string{}, freshT: map[string]bool{}, callOrd: map[string]int{}, lets: map[string]SV{}}
+	p := &Path{variants: map[int]string{}, freshT: map[string]bool{}, callOrd: map[string]int{}, lets: map[string]SV{}, freshSeq: map[string]int{}}
 	p.H0 = x.newHeap(p)
 	p.H = p.H0
+	x.addAnchor(p)
 	p.assume(fmt.Sprintf("(wf %s)", p.H0))
 	p.wfKnown = p.H0
 	fr := &Frame{fn: fn, env: map[ssa.Value]SV{}, blk: fn.Blocks[0], isTop: true}
@@ -751,7 +839,9 @@ func (x *Exec) addFrame(fs *frameSet, env *SpecEnv, e Expr) {
 				fs.objs = append(fs.objs, sv.T)
 				return
 			case "cell":
-				if sv.K == KLoc {
+				if sv.K == KLoc && sv.Loc.Kind == "builder" {
+					fs.cells = append(fs.cells, sv.Loc.Cell)
+				} else if sv.K == KLoc {
 					fs.cells = append(fs.cells, sv.Loc.Cell)
 				} else {
 					fs.cells = append(fs.cells, sv.T)
@@ -1081,6 +1171,10 @@ func (x *Exec) loopEdge(p *Path, li *loopInfo, from *ssa.BasicBlock, phis []*ssa
 			p.assume(ax)
 		}
 		x.seedFrame(p, lf, base, hb)
+		if !lf.all && len(lf.lists)+len(lf.objs)+len(lf.arrs)+len(lf.maps) == 0 {
+			p.assume(fmt.Sprintf("(ext %s %s)", base, hb))
+		}
+		p.anchors = nil
 		p.assume(fmt.Sprintf("(>= (next %s) (next %s))", hb, p.H))
 		if !x.loopHasCallbacks(li) {
 			p.assume(fmt.Sprintf("(and (= (TrLen %s) (TrLen %s)) (= (TrA %s) (TrA %s)) (= (TrB %s) (TrB %s)))", hb, p.H, hb, p.H, hb, p.H))
@@ -1089,6 +1183,7 @@ func (x *Exec) loopEdge(p *Path, li *loopInfo, from *ssa.BasicBlock, phis []*ssa
 		p.assume(fmt.Sprintf("(wf %s)", hb))
 		p.assume(freshOwn(base, hb))
 		p.wfKnown = hb
+		x.addAnchor(p)
 		// allocated ids stay allocated
 		for id := range p.freshT {
 			p.assume(fmt.Sprintf("(< %s (next %s))", id, hb))
